@@ -50,7 +50,7 @@ class Sim:
     def room(self, c):
         return self.cfg.maxsize() - self.sz[c]
 
-def gen_history(rng, cfg, nops, soft_cap=24, p_over=0.03, allow_alias=True, allow_input_it=True, ops_filter=None):
+def gen_history(rng, cfg, nops, soft_cap=24, p_over=0.03, allow_alias=True, allow_input_it=True, ops_filter=None, strict=False):
     """random operation history over the pool. Sizes mostly stay under soft_cap; with probability p_over an
     operation deliberately exceeds the hard limit (fixed capacity / size_type maximum) when that limit is near."""
     sim = Sim(cfg)
@@ -85,6 +85,10 @@ def gen_history(rng, cfg, nops, soft_cap=24, p_over=0.03, allow_alias=True, allo
             room = max(0, cap - sz)
             return rng.randrange(0, min(maxextra, room) + 1)
         p = rng.randrange(0, 64)
+        if strict and sz >= cap and op in ('push', 'pushm', 'emb', 'pushs', 'embs', 'ins', 'insm', 'emp', 'inss', 'emps'):
+            op = 'pop'
+        if strict and op == 'rsv':
+            lines.append(f'rsv {c} {rng.randrange(0, cap + 1)}'); continue
         if op in ('push', 'pushm', 'emb'):
             if sz >= cap and not over and hard > cap:
                 op = 'pop'
@@ -191,7 +195,7 @@ def gen_history(rng, cfg, nops, soft_cap=24, p_over=0.03, allow_alias=True, allo
 # running and diffing
 # ------------------------------------------------------------------------------------------------------
 class Obs:
-    __slots__ = ('idx', 'res', 'ret', 'conts', 'al', 'blocks', 'live', 'oracle', 'faults', 'raw')
+    __slots__ = ('idx', 'res', 'ret', 'conts', 'al', 'blocks', 'live', 'oracle', 'faults', 'raw', 'ev')
 
 def parse_line(line):
     o = Obs(); o.raw = line
@@ -209,10 +213,11 @@ def parse_line(line):
     last = dict(kv.split('=') for kv in parts[-1].split())
     o.al = tuple(int(x) for x in last['al'].split(','))
     o.blocks = int(last['blocks']); o.live = last['live']
-    o.oracle = 'ok'; o.faults = '-'
+    o.oracle = 'ok'; o.faults = '-'; o.ev = None
     if tail:
         t = dict(kv.split('=', 1) for kv in tail.split())
         o.oracle = t.get('oracle', 'ok'); o.faults = t.get('faults', '-')
+        o.ev = tuple(int(x) for x in t['ev'].split(',')) if 'ev' in t else None
     return o
 
 class Run:
